@@ -3350,7 +3350,14 @@ fn find_group_with_one_kmer(
                 let estim_no_bound = if config.verbosity > 2 {
                     let mut lz2 = LZDiff::new(config.min_match_len as u32);
                     lz2.prepare(&ref_data.to_vec());
-                    lz2.estimate(&target_data.to_vec(), (segment_len - 16) as u32) as usize
+                    // same initial bound as best_estim_size above (segments shorter than 16
+                    // bases must not underflow)
+                    let initial_bound = if segment_len < 16 {
+                        segment_len
+                    } else {
+                        segment_len - 16
+                    };
+                    lz2.estimate(&target_data.to_vec(), initial_bound as u32) as usize
                 } else {
                     0
                 };
